@@ -494,6 +494,26 @@ impl<T> std::ops::DerefMut for Placed<T> {
     }
 }
 
+// `Default` is probed the same way: a type that gains a `Default` implementation has gained a
+// constructor, and it is held to what the properties say about constructors.
+pub struct DefProbe<T>(pub std::marker::PhantomData<T>);
+pub trait DefYes<T> {
+    fn make(&self) -> Option<T>;
+}
+impl<T: Default> DefYes<T> for DefProbe<T> {
+    fn make(&self) -> Option<T> {
+        Some(T::default())
+    }
+}
+pub trait DefNo<T> {
+    fn make(&self) -> Option<T>;
+}
+impl<T> DefNo<T> for &DefProbe<T> {
+    fn make(&self) -> Option<T> {
+        None
+    }
+}
+
 // `==` is PROBED, not taken from a table: a type that gains a `PartialEq` implementation is compared
 // from then on (autoref specialisation: the `PartialEq` implementation of the probe is found first,
 // the fallback only through one more auto-reference).
@@ -690,6 +710,17 @@ macro_rules! det_gens {
             match kind {
                 $( Kind::$kind => construct_m!($t, seed, |g: $t| Box::new($w(Placed::new(g))) as Box<dyn DynGen>, Constructed::Ok, Constructed::Err), )*
                 Kind::Jitter => panic!("harness: Jitter is not SeedableRng"),
+            }
+        }
+
+        /// `Default::default()` of the type, if the type has it
+        pub fn default_of(kind: Kind) -> Option<Box<dyn DynGen>> {
+            match kind {
+                $( Kind::$kind => {
+                    let g: Option<$t> = (&DefProbe::<$t>(std::marker::PhantomData)).make();
+                    g.map(|g| Box::new($w(Placed::new(g))) as Box<dyn DynGen>)
+                } )*
+                Kind::Jitter => None,
             }
         }
 
